@@ -454,3 +454,25 @@ def patched(obj, name, value):
         yield
     finally:
         setattr(obj, name, old)
+
+
+def reuse_check(run, what, f, first, second, sig, case=None):
+    """Stateful-implementation probe for a function that should be pure: call `f` on buffers holding `first`, refill the SAME
+    array objects in place with `second`, call again; the result must equal `f` on fresh copies of `second` (and a repeated call).
+    `first` / `second`: tuples of equally shaped ndarrays (or None). Results are compared with ==/NaN-aware equality via repr."""
+    import numpy as np
+
+    bufs = tuple(None if a is None else np.array(a, copy=True) for a in first)
+    r1 = f(*bufs)
+    for b, s_ in zip(bufs, second):
+        if b is not None:
+            b[...] = s_
+    r_reused = f(*bufs)
+    r_fresh = f(*(None if a is None else np.array(a, copy=True) for a in second))
+    same = repr(np.asarray(r_reused).tolist()) == repr(np.asarray(r_fresh).tolist())
+    if not same:
+        run.prop_fail(f"{what}: the same array objects refilled in place give a different result than fresh arrays holding the same numbers "
+                      "(state kept between calls, e.g. a cache keyed on object identity)",
+                      case if case is not None else {"first": first, "second": second}, {**sig, "history": "buffer_reuse"},
+                      {"reused_buffers": r_reused, "fresh_arrays": r_fresh, "first_call": r1})
+    return same
